@@ -28,7 +28,13 @@
      SESSIONL v mode j0 i0 cls both nl pre cfg(12) cut faults state(6)
                                          -> outcome ncmds fin_at py nlog | events | final state
         v = verbosity; (mode j0 i0 cls both) as above for log call j0 of the session; nl = lines per message;
-        pre = levels of the debug calls before `try:` (l,l,l or "-") *)
+        pre = levels of the debug calls before `try:` (l,l,l or "-")
+     SESSIONE end flush_setup started hosts_fail hosts_restore flush_teardown cfg(12) cut faults state(6)
+                                         -> as SESSION        (Model/FwEnv.v session_e)
+        end = eof | <class> (readline raises); flush_setup, started = - | <class>; hosts_fail = - | k (k-th HOST
+        line's rewrite raises); hosts_restore, flush_teardown = 0|1 (raise inside their guards)
+     SESSIONA k cfg(12) cut faults state(6) -> as SESSION   (Model/FwEnv.v session_sig_asfound: finding F120, the signal
+        handler raises while the helper waits for command k of the tear-down; nat / tproxy / nft) *)
 let split_on c s = if s = "" then [] else String.split_on_char c s
 let tok_of s = bytes_of_hex s
 let str_of_tok t = hex_of_bytes t
@@ -184,5 +190,33 @@ let handle = function
              (String.concat "." (List.map str_of_tok r.r_py.py_tokens)) (int_of_nat rl.rl_nlog)
              (String.concat " " (List.map event_str r.r_events)) (str_of_state r.r_final)
        | _ -> "ERROR bad sessionL")
+  | "SESSIONE" :: en :: fs :: stt :: hf :: hr :: ft :: rest ->
+      let c = cfg_of (take 12 rest) in
+      let opt_cls x = if x = "-" then None else Some (cls_of x) in
+      (match drop 12 rest with
+       | cut :: fl :: st ->
+           let w = { w_end = (if en = "eof" then CEof else CErr (cls_of en)); w_flush_setup = opt_cls fs;
+                     w_started = opt_cls stt;
+                     w_hosts_fail = (if hf = "-" then None else Some (nat_of_int (int_of_string hf)));
+                     w_hosts_restore_fail = b01 hr; w_flush_teardown = b01 ft } in
+           let r = session_e c (nat_of_int (int_of_string cut)) (faults_of fl) w (state_of st) in
+           Printf.sprintf "%s %d %d %d,%s,%s | %s | %s" (outcome_str r.r_outcome) (int_of_nat r.r_ncmds)
+             (int_of_nat r.r_fin_at) (int_of_z r.r_py.py_started) (s01 r.r_py.py_loaded)
+             (String.concat "." (List.map str_of_tok r.r_py.py_tokens))
+             (String.concat " " (List.map event_str r.r_events)) (str_of_state r.r_final)
+       | _ -> "ERROR bad sessionE")
+  | "SESSIONA" :: k :: rest ->
+      let c = cfg_of (take 12 rest) in
+      let k = int_of_string k in
+      (match c.c_method, drop 12 rest with
+       | MPf _, _ -> "ERROR sessionA does not model pf"
+       | _, cut :: fl :: st ->
+           let r = session_sig_asfound c (nat_of_int (int_of_string cut)) (faults_of fl)
+                     (fun n -> int_of_nat n = k) (state_of st) in
+           Printf.sprintf "%s %d %d %d,%s,%s | %s | %s" (outcome_str r.r_outcome) (int_of_nat r.r_ncmds)
+             (int_of_nat r.r_fin_at) (int_of_z r.r_py.py_started) (s01 r.r_py.py_loaded)
+             (String.concat "." (List.map str_of_tok r.r_py.py_tokens))
+             (String.concat " " (List.map event_str r.r_events)) (str_of_state r.r_final)
+       | _ -> "ERROR bad sessionA")
   | _ -> "ERROR bad command"
 let () = main_loop handle
